@@ -1962,6 +1962,9 @@ func (t *tScreen) UnregisterRuneFallback(orig rune) {
 }
 
 func (t *tScreen) CanDisplay(r rune, checkFallbacks bool) bool {
+	// the encoder is stateful and shared with the drawing code
+	t.Lock()
+	defer t.Unlock()
 
 	if enc := t.encoder; enc != nil {
 		nb := make([]byte, 6)
@@ -2000,6 +2003,8 @@ func (t *tScreen) HasKey(k Key) bool {
 }
 
 func (t *tScreen) SetSize(w, h int) {
+	t.Lock()
+	defer t.Unlock()
 	if t.setWinSize != "" {
 		t.TPuts(t.ti.TParm(t.setWinSize, w, h))
 	}
@@ -2104,6 +2109,9 @@ func (t *tScreen) disengage() {
 	t.wg.Wait()
 
 	// shutdown the screen and disable special modes (e.g. mouse and bracketed paste)
+	// (under the lock again: other goroutines may still be calling the screen)
+	t.Lock()
+	defer t.Unlock()
 	ti := t.ti
 	t.cells.Resize(0, 0)
 	t.TPuts(ti.ShowCursor)
@@ -2135,7 +2143,9 @@ func (t *tScreen) disengage() {
 
 // Beep emits a beep to the terminal.
 func (t *tScreen) Beep() error {
+	t.Lock()
 	t.writeString(string(byte(7)))
+	t.Unlock()
 	return nil
 }
 
